@@ -10,6 +10,16 @@ COMMON_NOTE = ("Trusted base: TLC 1.8 evaluating the TLA+ specification in /veri
                "assumption of DESIGN 2.5 for the exhaustive part; simulated / random traces go beyond it.")
 
 CHECKS = {
+ "C19": dict(engine="Requests", design="3/C19",
+   text=("Requests.tla gives every operation family a precondition as a set of named clauses over the shape-level "
+         "description of the call, and Answer / Reject actions (a request is rejected iff a clause fails; a rejected "
+         "request leaves receiver and operands unchanged).  TLC enumerates the well-formed base requests and every "
+         "request in scope violating one (or two) clauses - wrong sizes incl. broadcastable 1 and multiples, wrong "
+         "counts, modes out of range / negative / repeated, non-permutations, element-count changes, shape mismatches, "
+         "inconsistent constructor components and algorithm options - and checks that each construction fails the "
+         "clause it is meant to fail.  Each abstract request is instantiated on every class offering the operation "
+         "(~10k concrete calls); TLC validates the recorded (raised, unchanged) observations against Requests_Trace."),
+   technique="TLA+ precondition clauses + Answer/Reject actions; TLC enumeration of single-clause violations; replay on all classes; TLC trace validation"),
  "C05": dict(engine="Ownership", design="3/C05",
    text=("Ownership.tla models objects as owners of buffers with Call / in-place / no-copy-constructor / Poke actions; "
          "TLC shows on a 4-handle model that pokes stay local under admissible calls and that the property fails as "
